@@ -540,6 +540,7 @@ def mixweights_rule(P, R):
 
 def run(P, R, tier):
     mixweights_rule(P, R)
+    mixsiblings_rule(P, R)
     unitfamilies_rule(P, R)
     spreaddefaults_rule(P, R)
     gfw_rule(P, R)
@@ -670,3 +671,60 @@ def run(P, R, tier):
                         file=fb["file"], line=fb["line"], function=fb["q"])
     if n < 2:
         R.anchor_missing("C15.search", "only %d sort/search comparator pairs found" % n)
+
+
+def mixsiblings_rule(P, R):
+    """add_mix computes two parallel weights per mixed solution - `intensive` (share of the mixing fractions) and the water-weighted
+    one that is actually passed to add_solution for temperature, pressure, pH, pe ... - and renormalises them when some fractions
+    are negative (positive components share 1, negative ones get 0).  Every block that assigns one of the two must assign the other:
+    a block that resets only `intensive` leaves the passed weight at its un-renormalised value, the weights no longer sum to one and
+    a mixture of solutions of equal temperature gets another temperature (equivalent descriptions: 1.0 * A - 0.1 * A' vs 0.9 * A)."""
+    RULE = "C15.mixsiblings"
+    R.rule(RULE, "add_mix: every block that assigns the fraction-share weight also assigns the weight actually passed to add_solution", minimum=3)
+    f = None
+    for g in P.fns_named("Phreeqc::add_mix"):
+        if any(y[0] == "Ref" and len(y) > 3 and y[3] == "intensive_water" for y in T.walk(g["body"])):
+            f = g
+    if f is None:
+        R.anchor_missing(RULE, "add_mix with the water-share weight not found")
+        return
+    calls = [c for c in T.calls(f["body"]) if T.callee_name(c) == "add_solution" and len(c[4]) == 3]
+    if len(calls) != 1:
+        R.anchor_missing(RULE, "add_mix: %d add_solution calls" % len(calls))
+        return
+    w = T.strip_casts(calls[0][4][2])
+    if not (T.is_node(w) and w[0] == "Ref"):
+        R.anchor_missing(RULE, "add_mix: weight argument of add_solution is not a variable")
+        return
+    passed = w[3]
+    sibling = "intensive" if passed != "intensive" else None
+    if sibling is None:
+        R.ok(RULE, "add_mix:single", "only one weight is computed and passed")
+        return
+
+    def assigns(st, name):
+        if not (T.is_node(st) and st[0] == "Bin"):
+            return False
+        for y in T.walk(st):        # `a = b = 0;` assigns both
+            if y[0] == "Bin" and y[2] == "=" and T.is_node(T.strip_casts(y[3])) and T.strip_casts(y[3])[0] == "Ref" and T.strip_casts(y[3])[3] == name:
+                return True
+        return False
+    n = 0
+    for comp in T.walk(f["body"]):
+        if comp[0] != "Compound":
+            continue
+        a = [st for st in comp[2] if assigns(st, sibling)]
+        b = [st for st in comp[2] if assigns(st, passed)]
+        if not a and not b:
+            continue
+        n += 1
+        inst = "add_mix:block@%d" % comp[1]
+        if a and b:
+            R.ok(RULE, inst, "%s and %s assigned together" % (sibling, passed))
+        elif a:
+            R.violation(RULE, inst, "this block assigns `%s` (line %d) but not `%s`, the weight that is passed to add_solution: the passed weights of the mixed solutions no longer "
+                        "sum to one (temperature, pressure and the starting estimates of the mixture are wrong)" % (sibling, a[0][1], passed), file=f["file"], line=a[0][1], function=f["q"])
+        else:
+            R.ok(RULE, inst, "%s assigned (the unused sibling is not)" % passed)
+    if n < 3:
+        R.anchor_missing(RULE, "add_mix: only %d blocks assign the weights" % n)
